@@ -352,8 +352,8 @@ func genMsg(t *rapid.T, kinds []string) Msg {
 		if rapid.Bool().Draw(t, "smallStep") {
 			m.Step = rapid.Int32Range(1, 3600).Draw(t, "stepSmall")
 		}
-		// until - from must fit the 31-bit duration and until must fit 32 bits
-		for int64(n)*int64(m.Step) > math.MaxInt32 {
+		// until = from + n*step must fit 32 bits (the span itself may exceed 2^31 seconds)
+		for int64(n)*int64(m.Step) > math.MaxUint32 {
 			n /= 2
 		}
 		span := int64(n) * int64(m.Step)
@@ -414,8 +414,8 @@ func genC14(t *rapid.T) C14Case {
 func TestC14(t *testing.T) {
 	RunProperty(t, Property[C14Case]{
 		ID:          "C14",
-		Rule:        "rapid-generated sequences of 1-4 encodable objects (valid headers of 1-4 archives, series of 0-2000 values with any step >= 1 whose span fits 31 bits, point lists of 0-2000 points, points, values of any float64 bit pattern incl. NaN payloads / signalling NaNs / infinities / -0, any uint32 time, any int32 duration) appended to a generated destination prefix and followed by generated trailing bytes; checked: field-wise + bit-wise equality after decode, re-encoding equality, exact consumption, remainder aliasing the input tail, sequential decoding of the concatenation, and for ~12 proper prefixes of the first message the want-larger-buffer protocol (size in (given, complete], retry terminates within 3 steps). Non-trivial: first message longer than 16 bytes, or trailing bytes, or a concatenation. Distinct = hash of the case.",
-		Assumptions: []string{"series satisfy until = from + n*step with until <= 2^32-1 and until-from <= 2^31-1 (what fetch and the constructors produce)"},
+		Rule:        "rapid-generated sequences of 1-4 encodable objects (valid headers of 1-4 archives, series of 0-2000 values with any step >= 1 and until <= 2^32-1 (spans beyond 2^31 s included), point lists of 0-2000 points, points, values of any float64 bit pattern incl. NaN payloads / signalling NaNs / infinities / -0, any uint32 time, any int32 duration) appended to a generated destination prefix and followed by generated trailing bytes; checked: field-wise + bit-wise equality after decode, re-encoding equality, exact consumption, remainder aliasing the input tail, sequential decoding of the concatenation, and for ~12 proper prefixes of the first message the want-larger-buffer protocol (size in (given, complete], retry terminates within 3 steps). Non-trivial: first message longer than 16 bytes, or trailing bytes, or a concatenation. Distinct = hash of the case.",
+		Assumptions: []string{"series satisfy until = from + n*step with until <= 2^32-1"},
 		Gen:         genC14,
 		Run:         runC14,
 	})
